@@ -8,13 +8,18 @@
    spheres and 1-Lipschitz fields; the values handed to mcToTriangles are f at the eight corner points
    (two-layer cache and its y*(nz+1)+z index; distance cache); sample boxes contain the bounding box;
    vertices stay in the sample box; a zero of f lies on the edge of every vertex (intermediate value
-   theorem); a cell with corners of both strict signs has a non-empty table row.
-   Measured by the harness only (not proved): the two-sided Hausdorff distance beyond the cell-wise
-   statements, agreement of triangle normals with the gradient, second-order convergence of the
-   enclosed volume.  Floating point rounding is not covered. *)
+   theorem).  Completeness of the EMITTED mesh (Render/CompleteR.v): every lattice edge whose end values have
+   different sign and lie outside the snapping window carries an emitted vertex (reflection over 256
+   configurations x 256 window masks); a point with tangent balls of radius > half a cell diagonal on either
+   side of the surface has an emitted vertex within ONE cell diagonal when no lattice value near it is inside
+   the window (or only harmless ones); without that condition the statement holds for the mesh before the
+   removal of degenerate triangles and is refuted for the emitted mesh of an arbitrary field.
+   Measured by the harness only (not proved): completeness for distance-like fields with lattice values inside
+   the window in general position, agreement of triangle normals with the gradient, second-order convergence of
+   the enclosed volume.  Floating point rounding is not covered. *)
 From Coq Require Import List ZArith NArith Bool Reals Lra Lia.
 From Sdfx Require Import Num.Ops Num.RInst Geo.Vec Geo.Box Geo.NormR Generated.MarchTables
-  Render.MC Render.MS Render.Lattice Render.Interp Render.LatticeR Render.Octree Render.Sample Render.InterpR.
+  Render.Balance Render.MC Render.MS Render.Lattice Render.Interp Render.LatticeR Render.Octree Render.Sample Render.InterpR Render.CompleteR.
 Import ListNotations.
 Open Scope R_scope.
 
@@ -145,17 +150,181 @@ Theorem C06_vertex_near_surface : forall f p1 p2, continuity (fun t => f (lerp3 
 Proof. exact vertex_near_surface. Qed.
 Print Assumptions C06_vertex_near_surface.
 
-(* complete_cellwise_partial: a cell with a corner strictly inside and a corner strictly outside has a
-   non-empty row of the triangle table (and a non-zero edge mask): it emits at least one triangle
-   before the removal of triangles with two coincident vertices.
-   PARTIAL: the full completeness claim of the property (every resolvable surface point is within one
-   cell diagonal of the mesh) needs that the surviving triangles cover the cell's part of the
-   surface; that, like the normal / gradient agreement and the second-order volume convergence, is
-   measured by the harness on shapes with known surface, not proved. *)
-Theorem C06_complete_cellwise_partial : forall (v : N -> R) a b, (a < 8)%N -> (b < 8)%N -> v a < 0 -> 0 < v b ->
-  local_tris (@mc_index ROps v 0) <> [] /\ edge_mask (@mc_index ROps v 0) <> 0%N.
-Proof. exact complete_cellwise. Qed.
-Print Assumptions C06_complete_cellwise_partial.
+(* ---------------------------------------------------------------- completeness (Render/CompleteR.v)
+   Statements about the mesh that is EMITTED (after Triangle3.Degenerate(0) removed the triangles with two
+   coincident vertices), for all lattices with positive increments and all fields.  "window" = the snapping
+   window |v| < epsilon of mcInterpolate; diag L = the cell diagonal. *)
+
+(* table completeness, by reflection over the 256 configurations of the regenerated tables: the edge mask is
+   the set of edges whose corner signs differ, the triangle row uses exactly those edges, rows are whole
+   triangles over three different edges *)
+Theorem C06_table_complete : forall cfg e, (cfg < 256)%N -> (e < 12)%N ->
+  N.testbit (edge_mask cfg) e = crossing cfg e /\
+  (crossing cfg e = true <-> In e (tri_row cfg)) /\
+  (N.of_nat (length (tri_row cfg)) mod 3 = 0)%N /\
+  (forall a b c, In (a, b, c) (local_tris cfg) -> a <> b /\ b <> c /\ a <> c).
+Proof. exact table_complete. Qed.
+Print Assumptions C06_table_complete.
+
+(* 256 configurations x 256 window masks x 12 edges: a sign-changing edge with at most one corner inside the
+   window (bit c of sm) whose vertex is not shared with another sign-changing edge of the cell lies in a
+   triangle of the row whose three vertices stay pairwise distinct (dpos: vertex position in doubled cell
+   coordinates, 0/2 = snapped onto a corner, 1 = strictly inside the edge) *)
+Theorem C06_table_alive : forall cfg sm e, (cfg < 256)%N -> (sm < 256)%N -> (e < 12)%N ->
+  crossing cfg e = true -> notboth_i sm (einfo e) = true ->
+  (forall e', (e' < 12)%N -> crossing cfg e' = true -> e' <> e -> pt_eqb (dpos sm e') (dpos sm e) = false) ->
+  exists t, In t (local_tris cfg) /\ uses e t = true /\ alive sm t = true.
+Proof. exact alive_sound_gen. Qed.
+Print Assumptions C06_table_alive.
+
+(* in ANY cell (any eight positions of a lattice with positive increments, any eight values) a sign-changing
+   edge whose two end values are outside the window carries a vertex of a triangle the cell emits *)
+Theorem C06_cell_edge_complete : forall (L : lattice3 ROps) (f : RV3 -> R),
+  0 < wx (linc L) /\ 0 < wy (linc L) /\ 0 < wz (linc L) ->
+  forall p e, (e < 12)%N -> crossing (cfg_at (sgnR (lval L f) 0) p) e = true ->
+    snp L f (addp p (fst (ledge e))) = false -> snp L f (addp p (far_of (ledge e))) = false ->
+    exists t, In t (@mc_to_triangles ROps (cell_p (lpoint L) p) (cell_v (lval L f) p) 0) /\
+              In (vposR (lpoint L) (lval L f) 0 (shiftv p (ledge e))) (tri_vertices t).
+Proof. exact cell_edge_complete. Qed.
+Print Assumptions C06_cell_edge_complete.
+
+(* lattice-edge completeness: two lattice points of the sampled lattice one step apart whose values have
+   different sign and are both outside the window: the linear zero crossing between them (t0 strictly between
+   0 and 1) is a vertex of an emitted triangle of marching_cubes L f, whatever all other lattice values are *)
+Theorem C06_lattice_edge_complete : forall (L : lattice3 ROps) (f : RV3 -> R),
+  0 < wx (linc L) /\ 0 < wy (linc L) /\ 0 < wz (linc L) ->
+  forall q q', (0 < lnx L)%nat -> (0 < lny L)%nat -> (0 < lnz L)%nat ->
+    in_lattice (lnx L) (lny L) (lnz L) q -> in_lattice (lnx L) (lny L) (lnz L) q' -> lattice_step q q' ->
+    straddles (lval L f q) (lval L f q') 0 -> @eps ROps <= Rabs (lval L f q) -> @eps ROps <= Rabs (lval L f q') ->
+    let t0 := - lval L f q / (lval L f q' - lval L f q) in
+    let w := lerp3 (lpoint L q) (lpoint L q') t0 in
+    0 < t0 < 1 /\ lerp (lval L f q) (lval L f q') t0 = 0 /\ crossing_of f (lpoint L q) (lpoint L q') w /\
+    exists t, In t (@marching_cubes ROps L f) /\ In w (tri_vertices t).
+Proof. exact lattice_edge_complete. Qed.
+Print Assumptions C06_lattice_edge_complete.
+
+(* one end value inside the window: the lattice point z itself is an emitted vertex, provided q is the only
+   lattice neighbour of z outside the window whose sign differs from that of z *)
+Theorem C06_lattice_edge_complete_snap : forall (L : lattice3 ROps) (f : RV3 -> R),
+  0 < wx (linc L) /\ 0 < wy (linc L) /\ 0 < wz (linc L) ->
+  forall q z, (0 < lnx L)%nat -> (0 < lny L)%nat -> (0 < lnz L)%nat ->
+    in_lattice (lnx L) (lny L) (lnz L) q -> in_lattice (lnx L) (lny L) (lnz L) z -> lattice_step q z ->
+    straddles (lval L f q) (lval L f z) 0 -> @eps ROps <= Rabs (lval L f q) -> Rabs (lval L f z) < @eps ROps ->
+    (forall m, in_lattice (lnx L) (lny L) (lnz L) m -> lattice_step z m -> m <> q ->
+               sgnR (lval L f) 0 m = sgnR (lval L f) 0 z \/ Rabs (lval L f m) < @eps ROps) ->
+    crossing_of f (lpoint L q) (lpoint L z) (lpoint L z) /\
+    exists t, In t (@marching_cubes ROps L f) /\ In (lpoint L z) (tri_vertices t).
+Proof. exact lattice_edge_complete_snap. Qed.
+Print Assumptions C06_lattice_edge_complete_snap.
+
+(* a cell that emits nothing has no sign change between two values outside the window: every sign-changing
+   edge of it has an end with |f| < epsilon *)
+Theorem C06_mixed_cell_empty_only_if : forall (L : lattice3 ROps) (f : RV3 -> R),
+  0 < wx (linc L) /\ 0 < wy (linc L) /\ 0 < wz (linc L) ->
+  forall p, @mc_to_triangles ROps (cell_p (lpoint L) p) (cell_v (lval L f) p) 0 = [] ->
+  forall e, (e < 12)%N -> crossing (cfg_at (sgnR (lval L f) 0) p) e = true ->
+    snp L f (addp p (fst (ledge e))) = true \/ snp L f (addp p (far_of (ledge e))) = true.
+Proof. exact mixed_cell_empty_only_if. Qed.
+Print Assumptions C06_mixed_cell_empty_only_if.
+
+(* no lattice value of the sampled lattice inside the window: every triangle of every cell has three pairwise
+   distinct vertices, Degenerate removes nothing, the emitted mesh is the image of the abstract mesh of C05 *)
+Theorem C06_nosnap_nothing_removed : forall (L : lattice3 ROps) (f : RV3 -> R),
+  0 < wx (linc L) /\ 0 < wy (linc L) /\ 0 < wz (linc L) ->
+  (forall q, in_lattice (lnx L) (lny L) (lnz L) q -> @eps ROps <= Rabs (lval L f q)) ->
+  @marching_cubes ROps L f =
+  map (mapT (vposR (lpoint L) (lval L f) 0)) (mesh (lnx L) (lny L) (lnz L) (sgnR (lval L f) 0)).
+Proof. exact nosnap_nothing_removed. Qed.
+Print Assumptions C06_nosnap_nothing_removed.
+
+(* complete_resolvable: s a point with two open balls of radius r > diag/2 tangent at s (centres s - r n and
+   s + r n, |n| = 1), the first inside {f < 0}, the second inside {f > 0}; the closed ball of radius diag
+   around s inside the sampled box; no lattice point within diag of s has its value inside the window.  Then
+   the emitted mesh has a vertex within ONE cell diagonal of s, and that vertex is the linear zero crossing on
+   a lattice edge.  (f arbitrary otherwise: no continuity or Lipschitz condition.)
+   PARTIAL with respect to the property sentence "every surface point the lattice can resolve is within one
+   cell diagonal of the mesh": the condition on the window.  It is relaxed by C06_complete_resolvable_gen
+   (window values allowed when every such lattice point has at most one neighbour of the other sign, that one
+   outside the window: planes and box faces lying in lattice planes), it is not needed for the mesh before the
+   removal of degenerate triangles (C06_complete_resolvable_unfiltered), and it cannot be dropped for
+   arbitrary fields (C06_complete_snap_refuted).  Open: fields that are distance-like near the surface with
+   lattice values inside the window in general position (a surface passing within 1e-12 of a lattice point
+   obliquely).  The octree renderer: C06_octree_same_triangles / C06_octree_complete_resolvable below. *)
+Theorem C06_complete_resolvable_partial : forall (L : lattice3 ROps) (f : RV3 -> R),
+  0 < wx (linc L) /\ 0 < wy (linc L) /\ 0 < wz (linc L) ->
+  forall (s n : RV3) (r : R), len3 n = 1 -> diag L / 2 < r ->
+    (forall p, dist3 p (offs s n (- r)) < r -> f p < 0) -> (forall p, dist3 p (offs s n r) < r -> 0 < f p) ->
+    ball_in_sample_box L s (diag L) ->
+    (forall q, in_lattice (lnx L) (lny L) (lnz L) q -> dist3 (lpoint L q) s <= diag L -> @eps ROps <= Rabs (lval L f q)) ->
+    exists t w, In t (@marching_cubes ROps L f) /\ In w (tri_vertices t) /\ dist3 w s <= diag L /\
+      exists q q', in_lattice (lnx L) (lny L) (lnz L) q /\ in_lattice (lnx L) (lny L) (lnz L) q' /\ lattice_step q q' /\
+                   crossing_of f (lpoint L q) (lpoint L q') w /\
+                   w = lerp3 (lpoint L q) (lpoint L q') (- lval L f q / (lval L f q' - lval L f q)) /\
+                   lerp (lval L f q) (lval L f q') (- lval L f q / (lval L f q' - lval L f q)) = 0.
+Proof. exact complete_resolvable. Qed.
+Print Assumptions C06_complete_resolvable_partial.
+
+Theorem C06_complete_resolvable_gen : forall (L : lattice3 ROps) (f : RV3 -> R),
+  0 < wx (linc L) /\ 0 < wy (linc L) /\ 0 < wz (linc L) ->
+  forall (s n : RV3) (r : R), len3 n = 1 -> diag L / 2 < r ->
+    (forall p, dist3 p (offs s n (- r)) < r -> f p < 0) -> (forall p, dist3 p (offs s n r) < r -> 0 < f p) ->
+    ball_in_sample_box L s (diag L) -> window_regular L f s ->
+    exists t w, In t (@marching_cubes ROps L f) /\ In w (tri_vertices t) /\ dist3 w s <= diag L /\
+      exists q q', in_lattice (lnx L) (lny L) (lnz L) q /\ in_lattice (lnx L) (lny L) (lnz L) q' /\ lattice_step q q' /\
+                   crossing_of f (lpoint L q) (lpoint L q') w.
+Proof. exact complete_resolvable_gen. Qed.
+Print Assumptions C06_complete_resolvable_gen.
+
+(* no condition on the values at all: the mesh BEFORE the removal of degenerate triangles (the emitted mesh is
+   its filter) has a vertex within one cell diagonal of s *)
+Theorem C06_complete_resolvable_unfiltered : forall (L : lattice3 ROps) (f : RV3 -> R),
+  0 < wx (linc L) /\ 0 < wy (linc L) /\ 0 < wz (linc L) ->
+  forall (s n : RV3) (r : R), len3 n = 1 -> diag L / 2 < r ->
+    (forall p, dist3 p (offs s n (- r)) < r -> f p < 0) -> (forall p, dist3 p (offs s n r) < r -> 0 < f p) ->
+    ball_in_sample_box L s (diag L) ->
+    @marching_cubes ROps L f =
+      filter nondegR (map (mapT (vposR (lpoint L) (lval L f) 0)) (mesh (lnx L) (lny L) (lnz L) (sgnR (lval L f) 0))) /\
+    exists u w, In u (mesh (lnx L) (lny L) (lnz L) (sgnR (lval L f) 0)) /\
+                In w (tri_vertices (mapT (vposR (lpoint L) (lval L f) 0) u)) /\ dist3 w s <= diag L.
+Proof. exact complete_resolvable_unfiltered. Qed.
+Print Assumptions C06_complete_resolvable_unfiltered.
+
+(* the octree renderer: for a 1-Lipschitz field (what the pruning of C07 needs) it emits exactly the triangles of
+   the uniform walk over the lattice of its finest cells (base oct_point v, increment 2 res, 2^m cells per axis),
+   so every statement above holds for it; the geometric one is spelled out *)
+Theorem C06_octree_same_triangles : forall (origin : RV3) (res : R) (f : RV3 -> R), 0 <= res -> lip3 f -> forall m v t,
+  In t (@octree ROps origin res (fv3 origin res f) m v) <-> In t (@marching_cubes ROps (oct_lattice origin res m v) f).
+Proof. exact octree_same_triangles. Qed.
+Print Assumptions C06_octree_same_triangles.
+
+Theorem C06_octree_complete_resolvable_partial : forall (origin : RV3) (res : R) (f : RV3 -> R), 0 < res -> lip3 f ->
+  forall m v (s n : RV3) (r : R),
+  let L := oct_lattice origin res m v in
+  len3 n = 1 -> diag L / 2 < r ->
+  (forall p, dist3 p (offs s n (- r)) < r -> f p < 0) -> (forall p, dist3 p (offs s n r) < r -> 0 < f p) ->
+  ball_in_sample_box L s (diag L) ->
+  (forall q, in_lattice (lnx L) (lny L) (lnz L) q -> dist3 (lpoint L q) s <= diag L -> @eps ROps <= Rabs (lval L f q)) ->
+  exists t w, In t (@octree ROps origin res (fv3 origin res f) m v) /\ In w (tri_vertices t) /\ dist3 w s <= diag L.
+Proof. exact octree_complete_resolvable. Qed.
+Print Assumptions C06_octree_complete_resolvable_partial.
+
+(* the window condition cannot be dropped for arbitrary fields: a field whose only negative lattice value lies
+   in (-epsilon, 0) renders to the empty mesh (every crossing vertex snaps onto that lattice point, every
+   triangle is degenerate) ... *)
+Theorem C06_lonely_snap_empty : forall (L : lattice3 ROps) (f : RV3 -> R) z0,
+  (forall q, lval L f q < 0 -> q = z0) -> - @eps ROps < lval L f z0 -> (forall q, q <> z0 -> @eps ROps <= lval L f q) ->
+  @marching_cubes ROps L f = [].
+Proof. exact lonely_snap_empty. Qed.
+Print Assumptions C06_lonely_snap_empty.
+
+(* ... and such a field exists with a resolvable surface: the witness is the unit lattice of 6^3 cells, the field
+   -epsilon/2 inside the ball of radius 9/10 about the lattice point (3,3,3) and 1 outside, s = (3.9, 3, 3) *)
+Theorem C06_complete_snap_refuted : exists (L : lattice3 ROps) (f : RV3 -> R) (s n : RV3) (r : R),
+  (0 < wx (linc L) /\ 0 < wy (linc L) /\ 0 < wz (linc L)) /\ len3 n = 1 /\ diag L / 2 < r /\
+  (forall p, dist3 p (offs s n (- r)) < r -> f p < 0) /\ (forall p, dist3 p (offs s n r) < r -> 0 < f p) /\
+  ball_in_sample_box L s (diag L) /\ @marching_cubes ROps L f = [].
+Proof. exact snap_refuted. Qed.
+Print Assumptions C06_complete_snap_refuted.
 
 (* hypotheses are satisfiable *)
 Example C06_sphere_straddles : let f := fun p : RV3 => dist3 p (mkV3 0 0 0) - 1 in
@@ -168,6 +337,24 @@ Proof.
 Qed.
 Example C06_affine_instance : affine3 (fun p => 2 * wx p - wy p + 3).
 Proof. exists 2, (-1), 0, 3. intros p. ring. Qed.
+
+(* the hypotheses of C06_complete_resolvable_partial hold for the plane x = 5/2 on the unit lattice of 5^3 cells *)
+Example C06_resolvable_plane_instance :
+  let L := unitL 5 in let s := mkV3 (5 / 2) (5 / 2) (5 / 2) in let n := mkV3 1 0 0 in
+  (0 < wx (linc L) /\ 0 < wy (linc L) /\ 0 < wz (linc L)) /\ len3 n = 1 /\ diag L / 2 < 1 /\
+  (forall p, dist3 p (offs s n (- 1)) < 1 -> plane_field p < 0) /\ (forall p, dist3 p (offs s n 1) < 1 -> 0 < plane_field p) /\
+  ball_in_sample_box L s (diag L) /\
+  (forall q, in_lattice (lnx L) (lny L) (lnz L) q -> dist3 (lpoint L q) s <= diag L -> @eps ROps <= Rabs (lval L plane_field q)).
+Proof. exact plane_example. Qed.
+(* those of C06_complete_resolvable_gen hold, with lattice values inside the window, for the plane x = 2 lying in a
+   lattice plane of the unit lattice of 4^3 cells, s the lattice point (2,2,2) *)
+Example C06_resolvable_aligned_plane_instance :
+  let L := unitL 4 in let s := mkV3 2 2 2 in let n := mkV3 1 0 0 in
+  (0 < wx (linc L) /\ 0 < wy (linc L) /\ 0 < wz (linc L)) /\ len3 n = 1 /\ diag L / 2 < 1 /\
+  (forall p, dist3 p (offs s n (- 1)) < 1 -> aligned_field p < 0) /\ (forall p, dist3 p (offs s n 1) < 1 -> 0 < aligned_field p) /\
+  ball_in_sample_box L s (diag L) /\ window_regular L aligned_field s /\
+  Rabs (lval L aligned_field (2, 2, 2)%Z) < @eps ROps.
+Proof. exact aligned_plane_example. Qed.
 
 (* ---------------------------------------------------------------- syntactic tie to the Go source
    Generated/RenderExpr.v is re-translated from the Go AST of the current source tree on every run
@@ -206,3 +393,17 @@ Theorem C06_TRANSL_layerYZ_Get : forall (O : Ops) (L : Sample.lattice3 O) (v0 v1
     RenderExpr.rg_render_layerYZ_Get (Sample.lsteps L) v0 v1 x (Z.of_nat y) (Z.of_nat z) = Sample.lget L (if (x =? 0)%Z then v0 else v1) y z.
 Proof. exact (@GenEqRender.layerYZ_Get_eq). Qed.
 Print Assumptions C06_TRANSL_layerYZ_Get.
+
+(* ---- inventory of mutable state (DESIGN.md 2.3).  The models above are functions of their arguments; they are
+   faithful only as long as the code keeps no state between calls beyond what they mention.  The package-level
+   variables and struct fields in the scope of C06 (and which of them are written outside construction, from which
+   entry points) are regenerated from the current source on every run (harness/stategen -> Generated/StateInv.v)
+   and contain no state beyond the expected, reviewed inventory of Sys/StateInvSpec.v, where every piece of state
+   that legitimately exists names the model component that accounts for it.  Breaks when a written package-level
+   variable, a struct field, or a write of a field outside its constructor is added in scope (coqc then prints the
+   differences); tolerates moved declarations, reordered fields, renamed locals, new helpers / constants / tables
+   nothing writes. *)
+From Sdfx Require Sys.StateInvSpec Sys.StateInvC06.
+Theorem C06_state_inventory : Sdfx.Sys.StateInvSpec.state_ok_C06 = true.
+Proof. exact Sdfx.Sys.StateInvC06.C06_state_inventory. Qed.
+Print Assumptions C06_state_inventory.
